@@ -142,7 +142,7 @@ def kern_set(tier, split=False):
             o += [kern_obl(0, split=1, engine=e), kern_obl(1, split=1, maxin=2, engine=e), kern_obl(2, order=1, split=1, maxin=2, engine=e),
                   kern_obl(3, split=1, maxin=2, engine=e)]
             if tier == 'thorough':
-                o += [kern_obl(2, order=2, split=1, maxin=2, engine=e), kern_obl(2, order=1, split=1, hiprec=1, maxin=2, engine=e), kern_obl(4, fixed=1, split=1, maxin=2, engine=e)]
+                o += [kern_obl(2, order=2, split=1, maxin=2, engine=e), kern_obl(2, order=1, split=1, hiprec=1, maxin=1, engine=e, timeout=2400), kern_obl(4, fixed=1, split=1, maxin=2, engine=e)]
     return o
 
 
